@@ -199,3 +199,93 @@ def file_list_contract(ck, mod, pairs=((1, 1000), (1, 500), (2, 1000), (3, 1000)
         if o.label.startswith("filelist.") and not o.bounded:
             o.bounded = "cadence pairs %s, query spanning at most one subdirectory period (sample indices and rate symbolic)" % (list(pairs),)
     ck.extra["filelist_runs"] = nruns
+
+
+def dmd_file_list_contract(ck, dm, pairs=((2, 1), (10, 5), (3, 1), (4, 2))):
+    """DigitalMetadataReader._get_file_list, the whole method (loops included), on symbolic sample indices and rate for enumerated
+    (subdir cadence, file cadence) pairs: the candidates are files of the cadence grid inside their subdirectory, ascending, each
+    meeting the queried span of file times, and the file of every sample in [sample0, sample1] is among them; a one-sample query
+    names exactly one file.  Every candidate is reported readable by the stand-in for os.access."""
+    R = dm.DigitalMetadataReader
+    fn = R._get_file_list
+    ck.add_function(pyload.source_info(dm, "DigitalMetadataReader._get_file_list"))
+    func = "digital_metadata.DigitalMetadataReader._get_file_list"
+    s0, s1, n, d, k = z3.Ints("sample0 sample1 n d k")
+    real = {kk: dm.__dict__.get(kk) for kk in ("np", "datetime", "os", "range")}
+    for (S, C), single in itertools.product(pairs, (True, False)):
+        t0, t1 = z3.Ints("t0 t1")
+        hyp = [n >= 1, d >= 1, s0 >= 0, s0 <= s1, floor_is(t0, s0 * d, n), floor_is(t1, s1 * d, n), t0 <= t1, t1 - t0 <= S]
+        if single:
+            hyp.append(s1 == s0)
+
+        def mk():
+            rec = dict(paths=[])
+
+            class DT:
+                def __init__(self, t):
+                    self.t = t
+
+                def strftime(self, fmt):
+                    rec["mark"] = len(pysym.Ctx.cur.__dict__.get("display_log", []))
+                    s_ = _Sub("<subdir>")
+                    s_.sym, s_.fmt = self.t, fmt
+                    return s_
+
+            def join(root, sub, base):
+                log = pysym.Ctx.cur.__dict__.get("display_log", [])
+                new = log[rec.get("mark", 0):]
+                rec["mark"] = len(log)
+                mm = __import__("re").fullmatch(r"md@(\d+)\.h5", base)
+                ts = None
+                if mm:
+                    ts = new[0] if len(new) == 1 else ((z3.IntVal(int(mm.group(1))), int(mm.group(1))) if not new else None)
+                p = _Path(sub, ts, None)
+                p.base, p.root = base, root
+                rec["paths"].append(p)
+                return p
+            dm.np = fake_np()
+            dm.datetime = types.SimpleNamespace(datetime=types.SimpleNamespace(fromtimestamp=lambda t, tz=None: DT(t)), timezone=real_dt.timezone)
+            dm.os = types.SimpleNamespace(path=types.SimpleNamespace(join=join), access=lambda p, m: True, R_OK=4)
+            dm.__dict__["range"] = p_range
+            self_ = types.SimpleNamespace(_sample_rate_numerator=pysym.SymInt(n), _sample_rate_denominator=pysym.SymInt(d), _file_cadence_secs=C,
+                                          _subdir_cadence_secs=S, _file_name="md", _metadata_dir="/m")
+            return (self_, pysym.SymInt(s0), pysym.SymInt(s0 if single else s1)), {}, rec
+        try:
+            outs = pysym.explore(fn, mk, hyp, max_paths=3000)
+        finally:
+            for kk, v in real.items():
+                if v is None:
+                    dm.__dict__.pop(kk, None)
+                else:
+                    dm.__dict__[kk] = v
+        tag = "subdir_cadence=%ds file_cadence=%ds %s" % (S, C, "one-sample query" if single else "range query")
+        meta = {"shape": tag}
+        for oc in outs:
+            if oc.kind != "return":
+                ck.add([Obl("dmdlist.total", func, 0, oc.pc, z3.BoolVal(False), kind="post", meta=meta)])
+                continue
+            lst = oc.value
+            okshape = all(isinstance(p, _Path) and isinstance(p.sub, _Sub) and p.sub.fmt == "%Y-%m-%dT%H-%M-%S" and p.secs is not None and p.root == "/m"
+                          and p.base == "md@%d.h5" % p.secs[1] for p in lst)
+            if not okshape:
+                ck.add([Obl("dmdlist.names_are_subdir_slash_prefix_at_time", func, 0, oc.pc, z3.BoolVal(False), kind="post", meta=meta)])
+                continue
+            ft = [pysym.Zt(p.secs[0]) for p in lst]
+            sub = [pysym.Zt(p.sub.sym) for p in lst]
+            F0, F1 = z3.Ints("F0 F1")          # file times of the first and last sample of the query
+            span = [F0 % C == 0, F0 <= t0, t0 < F0 + C, F1 % C == 0, F1 <= t1, t1 < F1 + C]
+            goals = []
+            for i in range(len(lst)):
+                goals += [ft[i] % C == 0, sub[i] % S == 0, sub[i] <= ft[i], ft[i] < sub[i] + S, ft[i] >= F0, ft[i] <= F1]
+            for a_, b_ in zip(ft, ft[1:]):
+                goals.append(a_ < b_)
+            ck.add([Obl("dmdlist.grid_ascending_and_within_span", func, 0, oc.pc + span, z3.And(goals) if goals else z3.BoolVal(True), kind="post", meta=meta)])
+            tk, fk = z3.Ints("tk fk")
+            hk = [s0 <= k, k <= s1, floor_is(tk, k * d, n), t0 <= tk, tk <= t1, fk % C == 0, fk <= tk, tk < fk + C]
+            ck.add([Obl("dmdlist.holds_the_file_of_every_queried_sample", func, 0, oc.pc + hk, z3.Or([f_ == fk for f_ in ft]) if ft else z3.BoolVal(False), kind="post", meta=meta)])
+            if single:
+                ck.add([Obl("dmdlist.one_sample_one_file", func, 0, oc.pc, z3.BoolVal(len(lst) == 1), kind="post", meta=dict(meta, files=len(lst)))])
+        ck.add(pysym.obligations_of(outs, func))
+    for o in ck.obls:
+        if o.label.startswith("dmdlist.") and not o.bounded:
+            o.bounded = "cadence pairs %s (subdir s, file s), query spanning at most one subdirectory period (sample indices and rate symbolic)" % (list(pairs),)
